@@ -11,8 +11,8 @@ REPO="${MUT_REPO:-/repo}"
 cd /verif
 if [ -n "$(git -C "$REPO" status --porcelain)" ]; then echo "mutcheck: $REPO is not clean" >&2; exit 2; fi
 # evidence files must only ever come from the unchanged tree
-rm -rf /dev/shm/evid.bak && cp -r evidence /dev/shm/evid.bak 2>/dev/null
-trap 'git -C "$REPO" checkout -- . ; git -C "$REPO" clean -fdq -- . >/dev/null 2>&1; rm -rf evidence; cp -r /dev/shm/evid.bak evidence 2>/dev/null; rm -rf /dev/shm/evid.bak' EXIT
+rm -rf /dev/shm/evid.bak.$$ && cp -r evidence /dev/shm/evid.bak.$$ 2>/dev/null
+trap 'git -C "$REPO" checkout -- . ; git -C "$REPO" clean -fdq -- . >/dev/null 2>&1; rm -rf evidence; cp -r /dev/shm/evid.bak.$$ evidence 2>/dev/null; rm -rf /dev/shm/evid.bak.$$' EXIT
 if ! git -C "$REPO" apply "$patch"; then echo "mutcheck: patch does not apply"; exit 2; fi
 export GOFLAGS=-mod=mod GOPROXY=off GOSUMDB=off GOTOOLCHAIN=local
 fails=$(cd "$REPO" && go test -vet=off -count=1 ./... 2>&1 | grep -E "^--- FAIL" | grep -v TestIOZero)
